@@ -179,8 +179,9 @@ func c09RunHistory(c *C09Case, suite []Req, ref [6][]string, rec *Recorder) *Dis
 		}
 		s = dbgState{cfg: 1}
 	}
+	wrap := oneWrap(m.Wrap) // wrapped once, before the history: the handler must follow every SetDebug/Reconfigure
 	check := func(step int, after string) *Disc {
-		got := SuiteSig(m.Wrap, suite)
+		got := SuiteSig(wrap, suite)
 		rec.Eval(len(suite))
 		want := ref[s.key()]
 		if i := firstDiff(want, got); i >= 0 {
